@@ -11,6 +11,7 @@ type gen struct {
 	// reuse ops (reuse.go): are in-place composite destinations allowed on this page; element count wanted per list column
 	inplace     bool
 	shortTuples bool
+	odd         bool // custom / unknown column types allowed here
 	count       map[*typeDesc]int
 }
 
